@@ -111,7 +111,7 @@ def check_valid(ctx, src, width, scopes, feats, tag, cli_dir=None):
             ctx.feature(f)
     ctx.feature('final_newline' if src.endswith(b'\n') else 'no_final_newline')
     try:
-        L = lua.Lua.from_lines([src], version=8)
+        L = lua.Lua.from_lines([src], version=ambient.VERSION[0])
     except Exception as e:
         ctx.inconclusive_because('generator produced a program picotool rejects (C08 owns that): %r' % (e,))
         return
@@ -126,7 +126,7 @@ def check_valid(ctx, src, width, scopes, feats, tag, cli_dir=None):
     if not align(ctx, src, out, case, scopes):
         return
     try:
-        L2 = lua.Lua.from_lines([out], version=8)
+        L2 = lua.Lua.from_lines([out], version=ambient.VERSION[0])
         count_after = L2.get_token_count()
     except Exception as e:
         ctx.violation('formatted code no longer parses: %r' % (e,), case)
@@ -148,7 +148,7 @@ def run_cli(ctx, src, width, case, cli_dir, scopes, expect_ok):
         for f in (p1, pf):
             if os.path.exists(f):
                 os.remove(f)
-        orig = rc.write_p8(regions, src, version=8)
+        orig = rc.write_p8(regions, src, version=ambient.VERSION[0])
         with open(p1, 'wb') as fh:
             fh.write(orig)
         argv = [ambient.vflag(), 'luafmt', '--indentwidth', str(width)] + (['--overwrite'] if overwrite else []) + [p1]
@@ -264,7 +264,7 @@ def check_invalid(ctx, rng, p, cli_dir):
         return
     case = {'src': src, 'mutation': desc, 'tag': 'invalid'}
     try:
-        L = lua.Lua.from_lines([src], version=8)
+        L = lua.Lua.from_lines([src], version=ambient.VERSION[0])
     except Exception:
         ctx.feature('mutant_rejected_by_parser')
         return
@@ -358,7 +358,7 @@ def replay(case, ctx):
     from pico8.lua import lua, lexer
     src = case['src']
     if case.get('tag') == 'invalid':
-        L = lua.Lua.from_lines([src], version=8)
+        L = lua.Lua.from_lines([src], version=ambient.VERSION[0])
         a = reflex.sig(reflex.lex(src))
         ctx.case(src)
         for wname in ('LuaFormatterWriter', 'LuaASTEchoWriter', 'LuaMinifyWriter'):
